@@ -1,3 +1,4 @@
+use rusty_linter::core::QBNumberCast;
 use rusty_parser::BuiltInFunction;
 use rusty_variant::Variant;
 
@@ -34,7 +35,9 @@ fn do_instr(start: usize, hay: &str, needle: &str) -> Result<i32, RuntimeError> 
         let mut i: usize = start - 1;
         while i + needle.len() <= hay.len() {
             if hay[i..(i + needle.len())] == needle[..] {
-                return Ok((i as i32) + 1);
+                // INSTR is an INTEGER function: a position that does not fit an INTEGER is an Overflow
+                let position: i32 = ((i as i64) + 1).try_cast()?;
+                return Ok(position);
             }
             i += 1;
         }
